@@ -21,6 +21,7 @@ Alphabet == { L("A title", "title", "A title"),
               L("# a comment", "comment", ""),
               L("  $ c1", "cmd", "c1"),
               L("  > c2", "cont", "c2"),
+              L("  > > c3", "cont", "> c3"),                \* only ONE continuation marker is removed
               L("  out", "exp", "out"),
               L("  ", "exp", ""),                          \* two spaces only: an empty expectation line
               L("   lead", "exp", " lead"),                \* three spaces: the third one belongs to the text
